@@ -1,0 +1,54 @@
+//go:build verif
+
+package actionlint
+
+// C14 (callee side): what the checker knows about the interface of a local action or a local reusable
+// workflow is read from its YAML file by yaml.v3 into small tagged structs. The spec functions stand for
+// the content of the decoded node (govc/calls.go, (*yaml.Node).Decode): yhas(n, k) - the mapping n has the
+// key k with a non-null value; ybool(n, k) / ystr(n, k) - the value under k read as bool / string.
+// "A declared required input without default is reported iff it is not supplied": an input counts as
+// required exactly when `required: true` is written and no `default:` is present - an empty default
+// (`default: ""`) is a default.
+
+//@ spec yhas(n: *yaml.Node, key: string): bool
+//@ spec ybool(n: *yaml.Node, key: string): bool
+//@ spec ystr(n: *yaml.Node, key: string): string
+
+//@ func (*ReusableWorkflowMetadataInput).UnmarshalYAML
+//@   props C14
+//@   ensures result == nil ==> input.Required == (ybool(n, "required") && !yhas(n, "default"))
+//@   ensures result == nil && ystr(n, "type") == "boolean" ==> istype(input.Type, "BoolType")
+//@   ensures result == nil && ystr(n, "type") == "number" ==> istype(input.Type, "NumberType")
+//@   ensures result == nil && ystr(n, "type") == "string" ==> istype(input.Type, "StringType")
+//@   ensures result == nil && ystr(n, "type") != "boolean" && ystr(n, "type") != "number" && ystr(n, "type") != "string" ==> istype(input.Type, "AnyType")
+
+//@ func (*ActionMetadataInputs).UnmarshalYAML
+//@   props C14
+//@   loop "i < len(n.Content)":
+//@     at_store ActionMetadataInput.Required: value == (ybool(v, "required") && !yhas(v, "default"))
+//@     at_store ActionMetadataInput.Name: value == k
+
+//@ func (*ReusableWorkflowMetadataSecrets).UnmarshalYAML
+//@   props C14
+//@   loop "i < len(n.Content)":
+//@     at_store ReusableWorkflowMetadataSecret.Name: value == k.Value
+
+// The same interface computed from the AST of a reusable workflow that is itself among the linted files.
+//@ func (*LocalReusableWorkflowCache).WriteWorkflowCallEvent
+//@   props C14
+//@   loop "range event.Inputs":
+//@     at_store ReusableWorkflowMetadataInput.Required: value == (i.Required != nil && i.Required.Value && i.Default == nil)
+//@     at_store ReusableWorkflowMetadataInput.Name: value == i.Name.Value
+//@     at_store ReusableWorkflowMetadataInput.Type: (i.Type == WorkflowCallEventInputTypeBoolean ==> istype(value, "BoolType")) && (i.Type == WorkflowCallEventInputTypeNumber ==> istype(value, "NumberType")) && (i.Type == WorkflowCallEventInputTypeString ==> istype(value, "StringType"))
+//@   loop "range event.Secrets":
+//@     at_store ReusableWorkflowMetadataSecret.Required: value == (s.Required != nil && s.Required.Value)
+//@     at_store ReusableWorkflowMetadataSecret.Name: value == s.Name.Value
+//@   loop "range event.Outputs":
+//@     at_store ReusableWorkflowMetadataOutput.Name: value == o.Name.Value
+
+// C01: the entries of these maps are never nil. They are built by the UnmarshalYAML methods above (yaml.v3
+// decodes a type that implements yaml.Unmarshaler only through that method), by WriteWorkflowCallEvent and
+// by the generated table of popular actions.
+//@ nonnil_elems ActionMetadataInputs
+//@ nonnil_elems ReusableWorkflowMetadataInputs
+//@ nonnil_elems ReusableWorkflowMetadataSecrets
